@@ -33,7 +33,8 @@ V03(o) == IF o.obs.result # "ok" THEN "not-ok"
 V06(o) == IF o.obs.result # "ok" THEN "not-ok"
           ELSE IF o.obs.summary.int # 1 THEN "summary-not-integral"
           ELSE IF ~SummaryOKW(o.items, o.obs.summary) THEN "summary"
-          ELSE IF o.obs.count \notin {Len(o.items), Len(Sections(o.items, o.opts.ips))} THEN "count"
+          \* the bigWig data count is the number of values or the number of sections (any chunking: between #chromosomes and #values)
+          ELSE IF ~(Len(ChromsOf(o.items)) <= o.obs.count /\ o.obs.count <= Len(o.items)) THEN "count"
           ELSE "ok"
 
 ZQBad(o, q) ==
